@@ -174,6 +174,23 @@ func c01Eval(c c01Case, steer int) (diag, sig string, escaped bool, cks byte) {
 	case !bytes.Equal(got.Body, body) || !bytes.Equal(rf.Body, body):
 		return fmt.Sprintf("body %s / %s want %s", hx(got.Body), hx(rf.Body), hx(body)), "field:body:" + kind, escaped, rf.Checksum
 	}
+	// the framed bytes stay what they were while the library frames (and decodes) further messages: a frame queued
+	// for a writer or kept for retransmission is still "the message the library framed"
+	snap := append([]byte(nil), frame...)
+	other := src.Header
+	other.ReplyID = 0x8100
+	for k, b := range [][]byte{{}, {0x7E, 0x7D, byte(c.PSerial)}, body, bytes.Repeat([]byte{0x7D}, len(body)+9)} {
+		hdr.PlatformSerialNumber = c.PSerial + uint16(k) + 1
+		other.PlatformSerialNumber = uint16(k)
+		later := hdr.Encode(exact(b))
+		later2 := other.Encode(exact(b))
+		_ = jt808.NewJTMessage().Decode(exact(later2))
+		if !bytes.Equal(frame, snap) {
+			return fmt.Sprintf("the frame returned earlier changed when a later message (body %s) was framed: was %s, now %s", hx(b), hx(snap), hx(frame)),
+				"earlier-frame-overwritten:" + kind, escaped, rf.Checksum
+		}
+		_ = later
+	}
 	return "", "", escaped, rf.Checksum
 }
 
@@ -184,7 +201,7 @@ func init() {
 		Rule: "source headers = library decode of reference-encoded terminal frames (2 versions x fragmented x encrypt bit x 6 BCD phones x 6 serials = 288) " +
 			"x reply IDs {0,8001,8100,007E,7E7D} x 7 platform serials x bodies (ALL strings over {7E,7D,01,02,00,FF} of length 0..5, and 7 patterns at lengths 6..16, 254..258, 998..1002, 1021..1023, " +
 			"each also with the last byte solved so that the checksum is 0x7E and 0x7D); quick = every (header,body) pair with rotating (reply ID, serial) plus every (header,reply ID,serial) triple on a 20-body menu, " +
-			"thorough = full product; a case is non-trivial when the framed bytes contain at least one escape pair",
+			"thorough = full product; a case is non-trivial when the framed bytes contain at least one escape pair; after each case 8 further messages (empty, short, same and longer bodies, same and a second header object) are framed and the first frame must be byte-identical to what it was",
 		Assumptions: []string{"reference codec /verif/harness/ref/frame.go is an independent reading of JT/T 808 tables 2/3 and the escape rule",
 			"bodies beyond the listed lengths/alphabet are not enumerated"},
 		Run: c01Run,
